@@ -924,6 +924,16 @@ func (st *State) iterCall(x *ssa.Call, method string, args []Val) Val {
 	case "HasBytesLeft":
 		return Val{K: KBool, B: &Cond{Op: CGE, F: st.IterLen(it).Sub(cur).AddC(-1)}}
 	case "Dump":
+		if ip.Oracle != nil {
+			n := st.IterLen(it).Sub(cur)
+			if blob, known := ip.Oracle.Bytes(st, it, cur, n); known && blob != "" {
+				st.setCursor(it, st.IterLen(it))
+				ev := resName + ".ev"
+				sv := &SliceV{ID: ev, Len: n, Cap: n, Event: ev, IsNil: Maybe, Blob: blob}
+				st.Events = append(st.Events, Event{Kind: "fetch", Obj: it.ID, Off: cur, Width: n, Val: Val{K: KSlice, S: sv}, Pos: x.Pos(), ID: ev})
+				return Val{K: KSlice, S: sv}
+			}
+		}
 		ln := st.IterLen(it)
 		// rest = max(0, len-cur); cursor = max(cur, len)
 		rest := ip.fresh("rest")
